@@ -822,8 +822,9 @@ META = dict(
     bounds=dict(
         quick="isconn: whole lattices 2..50 (every bit symbolic, every edge, both orientations); edge_label: grids 3 and 12, all 216 adjacency configurations; "
               "adj: all 216 configurations x {UT, CTT} on all 2x2 mazes and on a 3x3 base with 3 symbolic bits, 12 configurations x all 9 coordinate tokenizers; "
-              "path: all 1008 configurations on all 2x2 solved mazes (every endpoint pair incl. start == end), Forks around 7 concrete solutions per grid on 3x3/4x4 with "
-              "all other bits symbolic; full: covering samples of complete tokenizers x 3 kinds on 3x3 and on generated 6/11/12/13/20 grids with 2 symbolic bits",
+              "path: all 1008 configurations around every simple path of the 2x2 grid (28 solutions incl. one-cell ones, all other bits symbolic), Forks around 10 "
+              "concrete solutions per grid on 3x3/4x4 with all other bits symbolic; full: seeded samples of complete tokenizers x 3 kinds on 2x2 (all mazes, all "
+              "endpoint pairs), 3x3 and on generated 6/11/12/13/20 grids with 1-2 symbolic bits",
         thorough="more grids (up to 50 for full streams), 4 symbolic bits on 3x3, 14 solutions per grid, larger samples"),
     degenerate=dict(stream="tokens are Python strings and the tokenizers look every selected edge's bit up in a dict: paths = mazes x RNG representatives in the bound "
                            "(exhaustive enumeration; the solver only keeps the bookkeeping)",
